@@ -292,9 +292,9 @@ pub fn check(ctx: &mut Ctx) {
         "expected punycode comes from the idna crate".into(),
         "upper-case and trailing-dot hosts are exercised for totality only".into(),
     ];
-    let n = ctx.tier.pick(150_000, 6_000_000);
+    let n = ctx.tier.pick(1_500_000, 10_000_000);
     drive(ctx, "any", n, 60, &decode_any, &check_any);
-    let n = ctx.tier.pick(100_000, 4_000_000);
+    let n = ctx.tier.pick(1_000_000, 8_000_000);
     drive(ctx, "url", n, 120, &decode_url, &check_url);
     let _ = NetCfg::default();
 }
